@@ -188,8 +188,16 @@ def install_machine(it: Interp, trace: Optional[Trace] = None, area="symbolic", 
     return trace
 
 
-def make_svg(root: El, elements=None) -> Rec:
-    return Rec(ClassRef("svg", "SVG"), {"svg_root": root, "elements": list(elements or [])}, mutable=True)
+class SvgOf:
+    """Argument placeholder: an SVG object to be built by the repository's own SVG.__init__(root)."""
+
+    def __init__(self, root: El):
+        self.f = {"svg_root": root}
+        self.rec = None
+
+
+def make_svg(root: El, elements=None):
+    return SvgOf(root)
 
 
 def run(repo: Repo, cls_method: str, build: Callable[[], tuple], setup_extra: Optional[Callable[[Interp], None]] = None,
@@ -206,7 +214,16 @@ def run(repo: Repo, cls_method: str, build: Callable[[], tuple], setup_extra: Op
         if setup_extra:
             setup_extra(it)
 
-    return explore(repo, fn, [], fresh_args=build, setup=setup, max_paths=max_paths)
+    def entry(it, a, k):
+        def conv(x):
+            if isinstance(x, SvgOf):
+                x.rec = it.construct(ClassRef("svg", "SVG"), [x.f["svg_root"]], {})
+                x.f = x.rec.f
+                return x.rec
+            return x
+        return it.call(fn, [conv(x) for x in a], {kk: conv(v) for kk, v in k.items()})
+
+    return explore(repo, PyCallable(entry), [], fresh_args=build, setup=setup, max_paths=max_paths)
 
 
 def ok_outcomes(outs: List[Outcome], where: str) -> List[Outcome]:
